@@ -73,7 +73,14 @@ def events_for(s1):
                x for x in s1 if x not in ('t1', 't2')), True, True)),
            ('block-t1t4-poll', lambda: ev_block(('t1', 't4'), tuple(
                x for x in s1 if x not in ('t1', 't4')), True)),
-           ('reorg1-poll', lambda: ev_reorg(tuple(x for x in s1 if x != 't7'), True))]
+           ('reorg1-poll', lambda: ev_reorg(tuple(x for x in s1 if x != 't7'), True)),
+           # a tx vanishes between listing and fetching and is back before the next listing
+           ('evict-and-return', lambda: [ev_mempool(tuple(x for x in s1 if x not in ('t4', 't6'))),
+                                         ev_mempool(tuple(s1))]),
+           # the block confirming the spend of a prefix-colliding output (its sibling stays
+           # unspent) is flushed while the tx is being fetched
+           ('block-t7-poll-flush', lambda: ev_block(('t7',), tuple(x for x in s1 if x != 't7'),
+                                                    True, True))]
     return out
 
 
@@ -101,7 +108,8 @@ def run_case(case, res):
 
     def script_of(s):
         # new mempool, a bp poll, the refresh starts; X by default after the refresh
-        return [ev_mempool(s1), 'tick', 'tick', evmaker(), 'tick', 'tick']
+        x = evmaker()
+        return [ev_mempool(s1), 'tick', 'tick'] + (x if isinstance(x, list) else [x]) + ['tick', 'tick']
 
     def judge(run):
         s = run.s
@@ -142,10 +150,13 @@ def cases_for(tier):
     bound = 1 if tier == 'quick' else 2
     cases = []
     for pair in range(len(S0S1)):
-        for ev in range(7):
-            if tier == 'quick' and pair == 2 and ev not in (3, 4, 6):
+        for ev in range(9):
+            if 't7' not in S0S1[pair][1] and ev == 8:
                 continue
-            cases.append(dict(pair=pair, event=ev, bound=bound))
+            if tier == 'quick' and pair == 2 and ev not in (3, 4, 6, 7):
+                continue
+            for i in range(2):
+                cases.append(dict(pair=pair, event=ev, bound=bound, shard=[i, 2]))
     return cases
 
 
